@@ -7,6 +7,7 @@
 import KiraModel.Proofs.ModulatorLemmas
 import KiraModel.Props.C06
 import KiraModel.Props.C19
+import KiraModel.Proofs.GenAgreeMod
 
 namespace K
 
